@@ -851,6 +851,32 @@ def kinds_of(v, acc):
         kinds_of(v[1], acc)
 
 
+def hook_stream(_=None):
+    """impl-only: members a class declares in its persist() hook (instead of the decorator) are restored like any other,
+    whichever instance of whichever class of the family was saved or loaded first in this interpreter.  Runs in a fresh worker
+    process per order, because the declarations are class-level state."""
+    common.ensure_repo_on_path()
+    import plumpy
+    from harness.props import c19_classes as cc
+    order = _ or ('HookParent', 'HookChild', 'HookGrandChild')
+    fails = []
+    want = {'HookParent': dict(x=1), 'HookChild': dict(x=1, y=[2]), 'HookGrandChild': dict(x=1, y=[2], z=3)}
+    for name in order:
+        obj = getattr(cc, name)()
+        try:
+            state = obj.save()
+            back = plumpy.Savable.load(state, None)
+            got = {k: getattr(back, k, '<missing>') for k in want[name]}
+        except BaseException as e:  # noqa
+            got = 'raised ' + type(e).__name__
+        if got != want[name] or type(back).__name__ != name:
+            fails.append(dict(signature='hook-declared-member-not-restored', clause='saving and recreating restores every member declared '
+                              'with auto_persist (here: declared in the persist() hook of a subclass)',
+                              detail=dict(cls=name, order=list(order), restored=repr(got), expected=repr(want[name])),
+                              case=dict(hook_stream=True, order=list(order))))
+    return fails
+
+
 def run(ctx):
     cases, n_sys = gen_cases(ctx)
     with mp.Pool(ctx.workers) as pool:
@@ -862,6 +888,10 @@ def run(ctx):
         chunks = [lines[i:i + k] for i in range(0, len(lines), k)]
         model = [x for ch in ctx.model.run_parallel('savable', chunks) for x in ch]
     divergences, failures = [], []
+    orders = list(itertools.permutations(('HookParent', 'HookChild', 'HookGrandChild')))
+    with mp.Pool(len(orders), maxtasksperchild=1) as pool:          # one fresh interpreter state per order
+        for fs in pool.map(hook_stream, orders, chunksize=1):
+            failures.extend(fs)
     distinct = set()
     hist = dict(member_kinds={}, depth={}, loader_config={}, tamper={}, outcome={}, decl_kinds={'d': 0, 'c': 0}, classes={})
     for idx, (case, obs) in enumerate(zip(cases, impl)):
@@ -898,6 +928,10 @@ def run(ctx):
 
 
 def replay(ctx, failure):
+    if failure['case'].get('hook_stream'):
+        with mp.Pool(1, maxtasksperchild=1) as pool:
+            fs = pool.apply(hook_stream, (tuple(failure['case']['order']),))
+        return dict(failures=[dict(signature=f['signature'], detail=f['detail']) for f in fs])
     case = norm_case(failure['case'])
     with mp.Pool(1) as pool:
         obs = pool.apply(run_impl, (case,))
